@@ -310,9 +310,20 @@ func nilTest(t *Term) (x *Term, neq bool, ok bool) {
 }
 
 // errIsNonNilOnPath: is term e (an error value) known non-nil (+1), nil (-1) or unknown (0) on p?
+func sameVal(a, b *Term) bool {
+	if a == nil || b == nil {
+		return false
+	}
+	if a.V != nil && b.V != nil {
+		return a.V == b.V
+	}
+	return a.Key() == b.Key()
+}
+
 func errState(p *Path, e *Term) int {
-	for _, c := range p.Conds {
-		if x, neq, ok := nilTest(c.Term); ok && x.Key() == e.Key() {
+	for ci := len(p.Conds) - 1; ci >= 0; ci-- {
+		c := p.Conds[ci]
+		if x, neq, ok := nilTest(c.Term); ok && sameVal(x, e) {
 			if neq == c.Taken {
 				return 1
 			}
